@@ -321,6 +321,7 @@ class Universe:
         self.alts = {b: ['ALT%d_%s' % (i, '_'.join(b).upper()) if i != 1 else 'alt%d%s' % (i, style(b, 'pascal'))
                          for i in range(3)] + ['Alt-9-%s' % '-'.join(b)] for b in self.bases}
         self.files, self.dirs = {}, {}
+        self.used = []            # (name, base) already placed in os.environ / a file: reused to create overlaps
 
     def value(self, tp, as_kw=False):
         """raw string for the environment (or a keyword spec) of a unique, valid value of type tp"""
@@ -456,6 +457,7 @@ def gen_env(U, cands, density):
     for n, b in cands:
         if r.random() < density:
             env[n] = U.value(U.types[b])
+            U.used.append((n, b))
     for i in range(r.choice([0, 1, 2])):
         env['NOISE_%d' % i] = 'zz%d' % i
     return env
@@ -464,7 +466,8 @@ def gen_env(U, cands, density):
 def gen_file(U, cands, kind):
     r = U.r
     k = r.choice([1, 2, 2, 3, 4])
-    picks = [r.choice(cands) for _ in range(k)]
+    picks = [r.choice(U.used) if U.used and r.random() < 0.5 else r.choice(cands) for _ in range(k)]
+    U.used.extend(picks)
     content = [[n, U.value(U.types[b])] for n, b in picks]
     if kind == 'dir':
         d = {}
@@ -518,7 +521,8 @@ def gen_history(r, hid, long=False):
             ops.append({'op': 'class', 'id': ci, 'cls': classes[ci]})
 
     def do_set():
-        n, b = r.choice(cands)
+        n, b = r.choice(U.used) if U.used and r.random() < 0.3 else r.choice(cands)
+        U.used.append((n, b))
         v = U.value(U.types[b])
         ops.append({'op': 'set', 'k': n, 'v': v}); cur[n] = v
 
